@@ -243,6 +243,7 @@ func (o *OCIDir) manifestPut(ctx context.Context, r ref.Ref, m manifest.Manifest
 		if err != nil {
 			return fmt.Errorf("failed to rebuilding manifest with ref \"%s\": %w", r.CommonName(), err)
 		}
+		desc = m.GetDescriptor()
 	}
 	if r.Tag != "" {
 		desc.Annotations = map[string]string{
